@@ -183,7 +183,10 @@ def _replay_c11(case: dict) -> List[str]:
     return c11_stream.replay_case(case)
 
 
-PROPS["C11"] = {"theorems": [], "run": _run_c11, "replay": _replay_c11,
+PROPS["C11"] = {"theorems": ["C11_scalar", "C11_scalar_schema", "C11_scalar_validator", "AccSem_step", "AccSem_preds",
+                             "predSchema_keys", "PredOK_minLength", "PredOK_maxLength", "PredOK_exactLength", "PredOK_min",
+                             "PredOK_max", "PredOK_equalTo", "PredOK_choices"],
+                "run": _run_c11, "replay": _replay_c11,
                 "rule": "validator trees of the JSON-native fragment to depth 3 (scalars with every supported predicate, "
                         "lists / uniform / n-tuples, string-keyed maps, the five record kinds with optional keys and both "
                         "unknown-key policies, optionals, unions, named recursive definitions) x 6 JSON values each "
